@@ -29,14 +29,25 @@ Proof. intros H. unfold same_al, amt_of, lu_of. rewrite H, !Z.eqb_refl. reflexiv
 
 (* a balance that decreased was the [from] side of the movement *)
 Lemma moved_decrease t t' f to amt a : bal_moved t t' (f, to, amt) -> balance t' a < balance t a ->
-  f = Some a /\ 0 < amt.
+  f = Some a /\ 0 < amt /\ balance t a - balance t' a <= amt.
 Proof.
-  intros (P & B & _) L. rewrite B in L.
-  destruct f as [x|], to as [y|]; cbn [ocredit] in L; unfold credit in L.
-  - destruct (N.eqb a x) eqn:E1; destruct (N.eqb a y) eqn:E2; try lia; apply N.eqb_eq in E1; subst; split; auto; lia.
-  - destruct (N.eqb a x) eqn:E1; try lia. apply N.eqb_eq in E1; subst; split; auto; lia.
+  intros (P & B & _) L. rewrite B in *.
+  destruct f as [x|], to as [y|]; cbn [ocredit] in *; unfold credit in *.
+  - destruct (N.eqb a x) eqn:E1; destruct (N.eqb a y) eqn:E2; try lia; apply N.eqb_eq in E1; subst; repeat split; auto; lia.
+  - destruct (N.eqb a x) eqn:E1; try lia. apply N.eqb_eq in E1; subst; repeat split; auto; lia.
   - destruct (N.eqb a y); lia.
   - lia.
+Qed.
+
+Lemma debit_le_state s s' a amt : balance (tk s) a - balance (tk s') a <= amt ->
+  debit_le (state_view s) (state_view s') a amt = true.
+Proof. intros H. unfold debit_le. cbn [v_bal state_view]. apply Z.leb_le. exact H. Qed.
+
+(* the supervisory operations exist in the RWA flavour only *)
+Lemma exec_rwa_only c s cl s' v evs : exec c s cl = Ok (s', v, evs) ->
+  match cl with RForcedTransfer _ _ _ | RBurn _ _ | RRecover _ _ => is_rwa c = true | _ => True end.
+Proof.
+  intros H. destruct cl; auto; cbn [exec] in H; unfold is_rwa; destruct (c_flav c); try discriminate; reflexivity.
 Qed.
 
 (* expiry by the passage of time *)
@@ -162,7 +173,7 @@ Section Step.
   Lemma class_same g s s' cl v :
     tk s' = tk s -> now s' = now s -> core_inv (tk s) ->
     ghost_step g cl (Ok v) = g ->
-    (forall a, chk_debit (state_view s) (state_view s') cl (Ok v) a = true) /\
+    (forall a, chk_debit (is_rwa c) (state_view s) (state_view s') cl (Ok v) a = true) /\
     (forall p, chk_change (state_view s) (state_view s') cl (Ok v) p = true) /\
     (G g s -> G (ghost_step g cl (Ok v)) s').
   Proof.
@@ -177,8 +188,9 @@ Section Step.
   Lemma class_update g s s' cl v f to amt :
     update (tk s) f to amt = Ok (tk s') -> now s' = now s -> core_inv (tk s) ->
     ghost_step g cl (Ok v) = g ->
-    (forall a, f = Some a -> 0 < amt -> debit_ok (state_view s) (state_view s') cl v a = true) ->
-    (forall a, chk_debit (state_view s) (state_view s') cl (Ok v) a = true) /\
+    (forall a, f = Some a -> 0 < amt -> balance (tk s) a - balance (tk s') a <= amt ->
+               debit_ok (is_rwa c) (state_view s) (state_view s') cl v a = true) ->
+    (forall a, chk_debit (is_rwa c) (state_view s) (state_view s') cl (Ok v) a = true) /\
     (forall p, chk_change (state_view s) (state_view s') cl (Ok v) p = true) /\
     (G g s -> G (ghost_step g cl (Ok v)) s').
   Proof.
@@ -187,7 +199,7 @@ Section Step.
     split; [|split].
     - intros a. unfold chk_debit. cbn [v_bal state_view].
       destruct (balance (tk s') a <? balance (tk s) a) eqn:L; auto. apply Z.ltb_lt in L.
-      destruct (moved_decrease _ _ _ _ _ _ M L) as [-> Pa]. apply D; auto.
+      destruct (moved_decrease _ _ _ _ _ _ M L) as (-> & Pa & Le). apply D; auto.
     - intros p. unfold chk_change. rewrite same_al_refl_view; auto. cbn [v_allow state_view].
       apply allow_obs_ext; auto. apply aentry_allows. exact Al.
     - intros Hg. apply (G_frame g s s'); auto.
@@ -200,8 +212,9 @@ Section Step.
     spend_of cl v = Some (o, sp, amt) -> (forall au o' s' a' l', cl <> Approve au o' s' a' l') -> (forall n, cl <> Advance n) ->
     has_auth (call_auths cl) sp = true ->
     (forall a, f = Some a -> spent_ok (state_view s) (state_view s') (o, sp) amt = true ->
-               debit_ok (state_view s) (state_view s') cl v a = true) ->
-    (forall a, chk_debit (state_view s) (state_view s') cl (Ok v) a = true) /\
+               balance (tk s) a - balance (tk s') a <= amt ->
+               debit_ok (is_rwa c) (state_view s) (state_view s') cl v a = true) ->
+    (forall a, chk_debit (is_rwa c) (state_view s) (state_view s') cl (Ok v) a = true) /\
     (forall p, chk_change (state_view s) (state_view s') cl (Ok v) p = true) /\
     (G g s -> G (ghost_step g cl (Ok v)) s').
   Proof.
@@ -212,7 +225,7 @@ Section Step.
     split; [|split].
     - intros a. unfold chk_debit. cbn [v_bal state_view].
       destruct (balance (tk s') a <? balance (tk s) a) eqn:L; auto. apply Z.ltb_lt in L.
-      destruct (moved_decrease _ _ _ _ _ _ M L) as [-> Pa]. apply D; auto.
+      destruct (moved_decrease _ _ _ _ _ _ M L) as (-> & Pa & Le0). apply D; auto.
     - intros p. unfold chk_change. destruct (same_al (state_view s) (state_view s') p) eqn:Sa; auto.
       assert (X : allow_change_ok (state_view s) (state_view s') cl v p =
                   (pkey_eqb p (o, sp) && has_auth (call_auths cl) sp && (0 <? amt) && spent_ok (state_view s) (state_view s') p amt)).
@@ -233,7 +246,7 @@ Section Step.
     has_auth au o = true -> set_allowance (c_host c) (now s) (tk s) o sp amt lu = Ok (tk s') -> now s' = now s ->
     core_inv (tk s) ->
     let cl := Approve au o sp amt lu in
-    (forall a, chk_debit (state_view s) (state_view s') cl (Ok v) a = true) /\
+    (forall a, chk_debit (is_rwa c) (state_view s) (state_view s') cl (Ok v) a = true) /\
     (forall p, chk_change (state_view s) (state_view s') cl (Ok v) p = true) /\
     (G g s -> G (ghost_step g cl (Ok v)) s').
   Proof.
@@ -263,7 +276,7 @@ Section Step.
   Lemma class_advance g s s' n v :
     0 <= n -> tk s' = tk s -> now s' = now s + n -> core_inv (tk s) ->
     let cl := Advance n in
-    (forall a, chk_debit (state_view s) (state_view s') cl (Ok v) a = true) /\
+    (forall a, chk_debit (is_rwa c) (state_view s) (state_view s') cl (Ok v) a = true) /\
     (forall p, chk_change (state_view s) (state_view s') cl (Ok v) p = true) /\
     (G g s -> G (ghost_step g cl (Ok v)) s').
   Proof.
@@ -290,7 +303,7 @@ Section Step.
   (* every successful step of the model passes the checks, on its own state *)
   Theorem model_step_ok g s cl s' v evs :
     core_inv (tk s) -> exec c s cl = Ok (s', v, evs) ->
-    (forall a, chk_debit (state_view s) (state_view s') cl (Ok v) a = true) /\
+    (forall a, chk_debit (is_rwa c) (state_view s) (state_view s') cl (Ok v) a = true) /\
     (forall p, chk_change (state_view s) (state_view s') cl (Ok v) p = true) /\
     (G g s -> G (ghost_step g cl (Ok v)) s') /\
     (needs_signer cl = true -> call_auths cl <> []).
@@ -302,20 +315,20 @@ Section Step.
     - (* Advance *) destruct Sp as (Pn & T & _). apply class_advance; auto.
     - (* Mint *) destruct Sp as (U & _). eapply class_update; eauto. intros a X. discriminate.
     - (* Transfer *) destruct Sp as (Au & U & _). eapply class_update; eauto.
-      intros a X _. injection X; intros; subst. cbn [debit_ok]. rewrite N.eqb_refl, Au. reflexivity.
+      intros a X _ Le. injection X; intros; subst. cbn [debit_ok]. rewrite N.eqb_refl, Au, (debit_le_state _ _ _ _ Le). reflexivity.
     - destruct Sp as (Au & _). cbn. intros _ E. rewrite E in Au. discriminate.
     - (* TransferFrom *) destruct Sp as (Au & (t1 & Hs & U) & _).
       eapply class_spend; eauto; try (intros; discriminate).
-      intros a X SO. injection X; intros; subst. cbn [debit_ok]. rewrite N.eqb_refl, Au, SO. reflexivity.
+      intros a X SO Le. injection X; intros; subst. cbn [debit_ok]. rewrite N.eqb_refl, Au, SO, (debit_le_state _ _ _ _ Le). reflexivity.
     - destruct Sp as (Au & _). cbn. intros _ E. rewrite E in Au. discriminate.
     - (* Approve *) destruct Sp as (Au & Hs & _). apply class_approve; auto.
     - destruct Sp as (Au & _). cbn. intros _ E. rewrite E in Au. discriminate.
     - (* Burn *) destruct Sp as (Au & U & _). eapply class_update; eauto.
-      intros a X _. injection X; intros; subst. cbn [debit_ok]. rewrite N.eqb_refl, Au. reflexivity.
+      intros a X _ Le. injection X; intros; subst. cbn [debit_ok]. rewrite N.eqb_refl, Au, (debit_le_state _ _ _ _ Le). reflexivity.
     - destruct Sp as (Au & _). cbn. intros _ E. rewrite E in Au. discriminate.
     - (* BurnFrom *) destruct Sp as (Au & (t1 & Hs & U) & _).
       eapply class_spend; eauto; try (intros; discriminate).
-      intros a X SO. injection X; intros; subst. cbn [debit_ok]. rewrite N.eqb_refl, Au, SO. reflexivity.
+      intros a X SO Le. injection X; intros; subst. cbn [debit_ok]. rewrite N.eqb_refl, Au, SO, (debit_le_state _ _ _ _ Le). reflexivity.
     - destruct Sp as (Au & _). cbn. intros _ E. rewrite E in Au. discriminate.
     - (* QBalance *) destruct Sp as (-> & _). apply class_same; auto.
     - destruct Sp as (-> & _). apply class_same; auto.
@@ -329,24 +342,28 @@ Section Step.
     - (* VWithdraw *) destruct Sp as (Au & (t1 & Hs & U) & _). destruct (N.eqb operator owner) eqn:E.
       + subst t1. eapply class_update; eauto.
         * cbn [ghost_step spend_of]. rewrite E. reflexivity.
-        * intros a X _. injection X; intros; subst. cbn [debit_ok]. rewrite N.eqb_refl, Au, E. reflexivity.
+        * intros a X _ Le. injection X; intros; subst. cbn [debit_ok]. rewrite N.eqb_refl, Au, E, (debit_le_state _ _ _ _ Le). reflexivity.
       + eapply class_spend; eauto; try (intros; discriminate).
         * cbn [spend_of]. rewrite E. reflexivity.
-        * intros a X SO. injection X; intros; subst. cbn [debit_ok]. rewrite N.eqb_refl, Au, SO, E. reflexivity.
+        * intros a X SO Le. injection X; intros; subst. cbn [debit_ok]. rewrite N.eqb_refl, Au, SO, E, (debit_le_state _ _ _ _ Le). reflexivity.
     - destruct Sp as (Au & _). cbn. intros _ E. rewrite E in Au. discriminate.
     - (* VRedeem *) destruct Sp as (Au & (t1 & Hs & U) & _). destruct (N.eqb operator owner) eqn:E.
       + subst t1. eapply class_update; eauto.
         * cbn [ghost_step spend_of]. rewrite E. reflexivity.
-        * intros a X _. injection X; intros; subst. cbn [debit_ok]. rewrite N.eqb_refl, Au, E. reflexivity.
+        * intros a X _ Le. injection X; intros; subst. cbn [debit_ok]. rewrite N.eqb_refl, Au, E, (debit_le_state _ _ _ _ Le). reflexivity.
       + eapply class_spend; eauto; try (intros; discriminate).
         * cbn [spend_of]. rewrite E. reflexivity.
-        * intros a X SO. injection X; intros; subst. cbn [debit_ok]. rewrite N.eqb_refl, Au, SO, E. reflexivity.
+        * intros a X SO Le. injection X; intros; subst. cbn [debit_ok]. rewrite N.eqb_refl, Au, SO, E, (debit_le_state _ _ _ _ Le). reflexivity.
     - destruct Sp as (Au & _). cbn. intros _ E. rewrite E in Au. discriminate.
     - (* AssetMint *) destruct Sp as (T & _). apply class_same; auto.
     - (* AssetApprove *) destruct Sp as (T & _). apply class_same; auto.
-    - (* RForcedTransfer *) destruct Sp as (U & _). eapply class_update; eauto.
-    - (* RBurn *) destruct Sp as (U & _). eapply class_update; eauto.
-    - (* RRecover *) destruct Sp as [(_ & T & _)|(_ & U & _)]; [apply class_same; auto|eapply class_update; eauto].
+    - (* RForcedTransfer *) destruct Sp as (U & _). pose proof (exec_rwa_only _ _ _ _ _ _ H) as Rw. eapply class_update; eauto.
+      intros a X _ Le. injection X; intros; subst. cbn [debit_ok]. rewrite Rw, N.eqb_refl, (debit_le_state _ _ _ _ Le). reflexivity.
+    - (* RBurn *) destruct Sp as (U & _). pose proof (exec_rwa_only _ _ _ _ _ _ H) as Rw. eapply class_update; eauto.
+      intros a0 X _ Le. injection X; intros; subst. cbn [debit_ok]. rewrite Rw, N.eqb_refl, (debit_le_state _ _ _ _ Le). reflexivity.
+    - (* RRecover *) pose proof (exec_rwa_only _ _ _ _ _ _ H) as Rw.
+      destruct Sp as [(_ & T & _)|(_ & U & _)]; [apply class_same; auto|eapply class_update; eauto].
+      intros a X _ _. injection X; intros; subst. cbn [debit_ok]. rewrite Rw, N.eqb_refl. reflexivity.
     - destruct Sp as (T & _). apply class_same; auto.
     - destruct Sp as (T & _). apply class_same; auto.
     - destruct Sp as (T & _). apply class_same; auto.
